@@ -6,6 +6,8 @@ mod indexfile;
 mod logfile;
 mod logstore;
 mod naming;
+mod node;
+mod apply;
 mod sequence;
 mod util;
 
@@ -20,6 +22,8 @@ fn main() {
         "indexfile" => indexfile::run(),
         "logfile" => logfile::run(),
         "logstore" => logstore::run(),
+        "node" => node::run(args.get(2).map(|s| s.as_str()).unwrap_or("")),
+        "apply" => apply::run(),
         "naming" => naming::run(),
         "config" => config::run(),
         "openapi" | "console" | "perm" => auth::run(model),
